@@ -173,7 +173,7 @@ JudgeParse(e, pre) ==
   ELSE LET others == {f \in AllFields \ {"exec"} : e.post[f] # pre[f]}
            r == Parse(e.act.text, pre.exec, KnownInstr, WS)
        IN IF others # {} THEN Verdict("mismatch", "parse", "C03", SetAsSeq(others), "the parser changed a stack other than EXEC")
-          ELSE IF r.balanced /\ ~Ambiguous(e.act.text, KnownInstr, WS) /\ ~SeqMatch(r.exec, e.post.exec)
+          ELSE IF r.balanced /\ ~SeqMatch(r.exec, e.post.exec)
           THEN Verdict("mismatch", "parse", "C03", <<"exec">>, "EXEC differs from the token tree")
           ELSE Blank("ok", "parse")
 
